@@ -19,7 +19,9 @@ hx.patch_clock(fg)
 # lower-numbered group: acyclic), "P" is a plain path (symbolic text), the rest are date patterns.
 MEMBERS = ["", "@g1", "@g2", "P", "{yyyymmdd[0]}.zo", "log/{yyyymmdd[6]}.zo", "{days[1]:%Y}/{days[1]:%m}/{days[1]:%d}.zo",
            "w/{yyyymmdd[3]}-{yyyymmdd[2]}.zo"]
-NOWS = [(2024, 3, 1, 0, 30), (2024, 3, 3, 23, 30), (2025, 1, 4, 12, 0)]   # local wall-clock times
+# local wall-clock times: around the end of February of a leap year, around a year boundary, and on a day whose ISO
+# week-numbering year differs from its calendar year (Sat 2021-01-02 belongs to ISO year 2020)
+NOWS = [(2024, 3, 1, 0, 30), (2024, 3, 3, 23, 30), (2025, 1, 4, 12, 0), (2021, 1, 2, 9, 0)]
 
 
 def o_member(m, plain, today):
@@ -112,7 +114,7 @@ def nesting(m00: int, m01: int, m10: int, a1: int) -> bool:
 
 def dates(m: int, nested: bool, now_i: int, off: int) -> bool:
     """
-    pre: 4 <= m < 8 and 0 <= now_i < 3 and off in (-12, 0, 14)
+    pre: 4 <= m < 8 and 0 <= now_i < len(NOWS) and off in (-12, 0, 14)
     post: _
     """
     # date patterns are filled with the LOCAL calendar day and the six days before it, on days
@@ -125,7 +127,7 @@ def dates(m: int, nested: bool, now_i: int, off: int) -> bool:
 
 def two_days(m: int, nested: bool, now_a: int, now_b: int) -> bool:
     """
-    pre: 4 <= m < 8 and 0 <= now_a < 3 and 0 <= now_b < 3 and now_a != now_b
+    pre: 4 <= m < 8 and 0 <= now_a < len(NOWS) and 0 <= now_b < len(NOWS) and now_a != now_b
     post: _
     """
     # the same configuration expanded twice in ONE process on two different days: each expansion uses the day it runs on
